@@ -462,6 +462,8 @@ impl Prop for C06 {
           let mut steps: Vec<Value> = Vec::new();
           let mut cur = m0.clone();
           let mut pending_open = false;
+          let mut consumed: Vec<usize> = Vec::new();
+          let mut reordered = false;
           for (i, e) in tr.iter().enumerate() {
             if e.thread == t {
               // a storage read after `reader.before_segment_open` belongs to that open step
@@ -474,6 +476,34 @@ impl Prop for C06 {
               }
               if i > begin && i < end {
                 if e.name == "reader.after_manifest_copy" {
+                  // A commit swaps the manifest under the write guard, releases it and only then
+                  // reports `commit.after_publish`.  A reader that was parked behind that writer is
+                  // released by the guard drop and may report its copy BEFORE the committer reports
+                  // the publish, although it copied the NEW manifest.  The trace order of these two
+                  // reports is a race between two released threads; when the copy is recorded inside
+                  // a committer's swap interval (after its `commit.after_marker`, before its
+                  // `commit.after_publish`) the order is taken from what the reader actually copied.
+                  let racing = (i + 1..tr.len()).find(|j| {
+                    let f = &tr[*j];
+                    f.thread != t
+                      && f.name == "commit.after_publish"
+                      && !consumed.contains(j)
+                      && (0..i).rev().find(|q| tr[*q].thread == f.thread).map(|q| tr[q].name == "commit.after_marker").unwrap_or(false)
+                      && f.data.is_some()
+                      && f.data.as_ref() == res.get("manifest")
+                  });
+                  if let Some(j) = racing {
+                    let m = tr[j].data.clone().unwrap();
+                    for nm in names(&m) {
+                      if !names(&cur).contains(&nm) {
+                        steps.push(json!(["create", nm]));
+                      }
+                    }
+                    steps.push(json!(["publish", m]));
+                    cur = m;
+                    consumed.push(j);
+                    reordered = true;
+                  }
                   steps.push(json!(["rd"]));
                 } else if e.name == "reader.before_segment_open" {
                   pending_open = true;
@@ -491,6 +521,7 @@ impl Prop for C06 {
               pending_open = false;
             }
             match e.name.as_str() {
+              "commit.after_publish" if consumed.contains(&i) => {}
               "commit.after_publish" => {
                 if let Some(m) = &e.data {
                   for nm in names(m) {
@@ -528,6 +559,9 @@ impl Prop for C06 {
               }
               _ => {}
             }
+          }
+          if reordered {
+            s.count("copy_vs_commit_publish_order_from_observation");
           }
           let steps: Vec<Value> = steps.into_iter().filter(|x| x[0] != "_old" && x[0] != "_done").collect();
           let m = drv.call("C06", json!({"op": "open", "dir": names(&m0), "manifest": m0, "steps": steps}));
